@@ -16,7 +16,7 @@ def describe(tier):
         "Oracle: an exception is raised and victim + neighbours read back unchanged.",
         bounds=dict(history_types=len(universe.rh(tier)), legal_prefix_depth=0 if tier == "quick" else 1),
         assumptions=["only the misuse classes named by the property are demanded to raise"],
-        must_fire=["x-index", "x-len", "x-str", "x-items", "x-struct", "x-struct-xobj", "x-struct-resplit", "x-scalar-seq", "x-scalar-seq-in", "x-union", "x-union-in", "x-ctx", "x-offset"],
+        must_fire=["x-index", "x-len", "x-str", "x-items", "x-struct", "x-struct-xobj", "x-struct-resplit", "x-resplit", "x-scalar-seq", "x-scalar-seq-in", "x-union", "x-union-in", "x-ctx", "x-offset"],
     )
 
 
@@ -127,6 +127,71 @@ def resplit_value(t, v):
                 d = dict(v)
                 d[gn], d[sn] = g, sh
                 return d
+    return None
+
+
+def _delta(ft, fv, sign):
+    """string / 1-D dynamic scalar array one slot longer (sign > 0) or shorter (None if impossible)"""
+    if ft[0] == "Str":
+        if sign > 0:
+            return fv + "G" * 8
+        return fv[:-8] if fv.isascii() and len(fv) >= 8 else None
+    if ft[0] == "A" and len(ft[2]) == 1 and ft[2][0] is None and ft[1][0] == "S":
+        k = 8 // np.dtype(xt.NPDT[ft[1][1]]).itemsize
+        n = fv["shape"][0]
+        if sign > 0:
+            proto = fv["items"][(0,)] if n else xt.gen(ft[1], "ramp")
+            items = dict(fv["items"])
+            for i in range(n, n + k):
+                items[(i,)] = proto
+            return {"shape": (n + k,), "items": items}
+        if n < k:
+            return None
+        return {"shape": (n - k,), "items": {(i,): fv["items"][(i,)] for i in range(n - k)}}
+    return None
+
+
+def resplit_array(t, v):
+    """array of dynamically sized items (strings / 1-D dynamic scalar arrays): one item a slot longer, another a slot shorter"""
+    if t[0] != "A" or not xt.is_dyn(t[1]) or t[1][0] not in ("Str", "A"):
+        return None
+    idxs = list(v["items"])
+    for gi in idxs:
+        g = _delta(t[1], v["items"][gi], +1)
+        if g is None:
+            continue
+        for si in idxs:
+            if si == gi:
+                continue
+            sh = _delta(t[1], v["items"][si], -1)
+            if sh is not None:
+                items = dict(v["items"])
+                items[gi], items[si] = g, sh
+                return {"shape": v["shape"], "items": items}
+    return None
+
+
+def resplit_deep(t, v):
+    """same total size and the same split at the TOP level, another split strictly inside one nested (by value) part"""
+    if t[0] == "St":
+        for n, ft in t[1]:
+            if ft[0] in ("St", "A"):
+                r = resplit_value(ft, v[n]) if ft[0] == "St" else resplit_array(ft, v[n])
+                if r is None:
+                    r = resplit_deep(ft, v[n])
+                if r is not None:
+                    d = dict(v)
+                    d[n] = r
+                    return d
+    elif t[0] == "A" and t[1][0] in ("St", "A"):
+        for idx, iv in v["items"].items():
+            r = resplit_value(t[1], iv) if t[1][0] == "St" else resplit_array(t[1], iv)
+            if r is None:
+                r = resplit_deep(t[1], iv)
+            if r is not None:
+                items = dict(v["items"])
+                items[idx] = r
+                return {"shape": v["shape"], "items": items}
     return None
 
 
@@ -269,6 +334,14 @@ def misuse_menu(s, opts, d):
             # its creation, so this is a misfit exactly as the same value given as a dictionary is
             for src in ("other", "same"):
                 evs.append(("x-struct-resplit", "h", path, src))
+        if nt[0] in ("St", "A") and (not path or path[-1] not in ("*", "#")) and not xt.has_refs(nt) and rooms_full(nt, nv, path):
+            # the same with the other split strictly INSIDE a nested part (the top level is split as before), and for arrays
+            # of dynamically sized items: one item a slot longer, another one a slot shorter
+            if resplit_deep(nt, nv) is not None:
+                evs.append(("x-resplit", "h", path, "deep"))
+            if resplit_array(nt, nv) is not None:
+                evs.append(("x-resplit", "h", path, "items"))
+                evs.append(("x-resplit", "v", path, "items"))
         if nt[0] == "St" and path and path[-1] not in ("*", "#") and len(nt[1]) > 1 and xt.is_dyn(nt) and grow_value(nt, nv, path) is not None:
             for via in ("h", "v"):
                 evs.append(("x-struct", via, path))
@@ -387,6 +460,14 @@ def apply_misuse(s, ev):
     elif kind == "x-struct-resplit":
         g = resplit_value(nt, nv)
         src = xt.construct(nt, xt.to_py(nt, g), _buffer=place.traced("np", 0) if ev[3] == "other" else s.h._buffer)
+        assert hand.size_of(src) == xt.layout_size(nt, nv), "resplit value must have the size of the element"
+        if path:
+            hand.assign(rt, rh, path, src)
+        else:
+            rh._update(src)
+    elif kind == "x-resplit":
+        g = resplit_deep(nt, nv) if ev[3] == "deep" else resplit_array(nt, nv)
+        src = xt.construct(nt, xt.to_py(nt, g), _buffer=place.traced("np", 0))
         assert hand.size_of(src) == xt.layout_size(nt, nv), "resplit value must have the size of the element"
         if path:
             hand.assign(rt, rh, path, src)
@@ -545,6 +626,47 @@ def ctor_misuse(types, res, seed):
                 continue
             res.outcomes["accepted:x-offset-outside"] += 1
             res.violations.append(common.violation("C11.refused", "accepted-silently:x-offset-outside", f, cid, "object of %d bytes accepted at offset %d of a buffer of %d bytes" % (size, kw["_offset"], own.capacity)))
+        # (d) a construction at a VALID explicit offset (a region the caller reserved) that is refused while the value is
+        # written (a sequence where one number is expected): the region itself is the operation's target, everything else -
+        # the bytes around it and the allocator's books - must be as before
+        sc = [lp for lp, lt, lv in xt.leaf_paths(t, v) if lt[0] == "S" and lp and not any(q in ("*", "#") for q in lp)]
+        if sc and t[0] in ("St", "A") and size > 0 and not xt.has_refs(t):  # (reference-free: the construction allocates nothing else)
+            import copy as pycopy
+
+            badarg = pycopy.deepcopy(arg)
+            lt_, lv_ = hist.type_at(t, v, sc[-1])
+            try:
+                py_put(badarg, sc[-1], [xt.to_py(lt_, lv_), xt.to_py(lt_, lv_)])
+            except Exception:
+                badarg = None
+            if badarg is not None:
+                own2 = place.traced("np", 13 + size + 64, default_alignment=1)
+                own2.update_from_buffer(own2.allocate(13), place.poison(13, seed + 4))
+                reg = own2.allocate(size + 8)
+                own2.update_from_buffer(reg, place.poison(size + 8, seed + 5))
+                before = place.whole(own2)
+                free0, cap0, chunks0 = own2.get_free(), own2.capacity, [(c.start, c.end) for c in own2.chunks]
+                res.cases += 1
+                res.transitions += 1
+                res.events["x-offset"] += 1
+                cid = dict(type=t, type_str=xt.show(t), misuse="x-refused-at-explicit-offset", leaf=common.jsonable(list(sc[-1])))
+                f = cons.feats(t, "ramp", "py", "x-refused-at-explicit-offset")
+                f["misuse"] = "x-refused-at-explicit-offset"
+                try:
+                    xt.construct(t, badarg, _buffer=own2, _offset=reg)
+                except Exception as e:
+                    res.oracles["raised"] += 1
+                    after = place.whole(own2)
+                    outside_changed = [i for i in range(min(len(before), len(after))) if before[i] != after[i] and not (reg <= i < reg + size)]
+                    books = (own2.get_free(), own2.capacity, [(c.start, c.end) for c in own2.chunks])
+                    if outside_changed or books != (free0, cap0, chunks0):
+                        res.violations.append(common.violation("C11.no-side-effect", "buffer-touched-by-refused-constructor:x-refused-at-explicit-offset", f, cid,
+                                                               "bytes outside the region %r, allocator books %r -> %r" % (outside_changed[:6], (free0, cap0, chunks0), books)))
+                    else:
+                        res.outcomes["refused-cleanly:x-refused-at-explicit-offset"] += 1
+                else:
+                    res.outcomes["accepted:x-refused-at-explicit-offset"] += 1
+                    res.violations.append(common.violation("C11.refused", "accepted-silently:x-refused-at-explicit-offset", f, cid, "a sequence for the scalar at %r was accepted" % (sc[-1],)))
         if t[0] == "U" and v is not None:
             # a stand-alone union reference built from a member OBJECT (living in some buffer) with an explicit offset and
             # no buffer of its own: refused, and the buffer of the member object is not touched
